@@ -31,6 +31,7 @@
 
 #include <cstring>
 #include <cstdlib>
+#include <locale>
 #include <sstream>
 
 namespace libconfig {
@@ -140,6 +141,9 @@ static void __constructPath(const Setting &setting,
                             std::stringstream &path)
 {
   // head recursion to print path from root to target
+
+  // indices are part of the path syntax: never group or localize their digits
+  path.imbue(std::locale::classic());
 
   if(! setting.isRoot())
   {
